@@ -2045,7 +2045,7 @@ func (dsc *dataStoreCommand) fieldAddInt(keyName, fieldName string, delta int64)
 			return
 		}
 		newVal := oldInt + delta
-		if (newVal > value) != (delta > 0) {
+		if (newVal > oldInt) != (delta > 0) {
 			ve = VALUE_OVERFLOW
 			return
 		}
